@@ -362,16 +362,29 @@ def check_files(ctx, V, impl, model, cases, exec_mode, label):
     return parsed
 
 
+RULE_HITS = {}          # rule -> [witness dict, ...]   (one VIOLATION per rule; the first hit is the site)
+
+
 def violation_for(V, p, fail, origin):
     loc = locate(p["specs"], fail) if p["specs"] is not None else None
     where = "%s:%s" % (p["rel"] or p["id"], loc["line"] if loc else "?")
-    V.violation("rule_" + fail["rule"], "%s:%s" % (p["rel"] or p["id"], (loc or {}).get("script") or fail["script"]),
-                dict(file=p["rel"], where=where, rule=fail["rule"], script_index=fail["script"], path=fail["path"],
-                     specification=(loc or {}).get("spec"), script=(loc or {}).get("script"), statement=(loc or {}).get("stmt"),
-                     seen_by=origin),
-                "%s: rule `%s` violated in specification \"%s\" script %s statement %s %s" % (
-                    where, fail["rule"], (loc or {}).get("spec"), (loc or {}).get("script") or fail["script"],
-                    ".".join(map(str, fail["path"])) or "-", (loc or {}).get("stmt") or ""))
+    w = dict(file=p["rel"], where=where, rule=fail["rule"], script_index=fail["script"], path=fail["path"],
+             specification=(loc or {}).get("spec"), script=(loc or {}).get("script"), statement=(loc or {}).get("stmt"),
+             seen_by=origin,
+             text="%s: rule `%s` violated in specification \"%s\" script %s statement %s %s" % (
+                 where, fail["rule"], (loc or {}).get("spec"), (loc or {}).get("script") or fail["script"],
+                 ".".join(map(str, fail["path"])) or "-", (loc or {}).get("stmt") or ""))
+    RULE_HITS.setdefault(fail["rule"], []).append(w)
+
+
+def flush_rule_violations(V):
+    for rule, hits in sorted(RULE_HITS.items()):
+        w = dict(hits[0])
+        if len(hits) > 1:
+            w["also"] = [h["text"] for h in hits[1:60]]
+        V.violation("rule_" + rule, "%s:%s" % (w["file"], w["script"] or w["script_index"]), w,
+                    w["text"] + ("" if len(hits) == 1 else "   (+ %d more statements, listed under `also`)" % (len(hits) - 1)))
+    RULE_HITS.clear()
 
 
 def run(ctx, V):
@@ -399,6 +412,7 @@ def run(ctx, V):
     cases = [(f, f, open(os.path.join(ctx.repo, f), "rb").read()) for f in found]
     res = check_files(ctx, V, impl, model, cases, True, "shipped")
     tot = dict(files=0, specs=0, scripts=0, stmts=0, patterns=0, sends=0, hsprintf_calls=0, actions=0, sends_observed=0)
+    refused = []
     for p in res:
         V.case(("shipped", p["id"]), True)
         V.count("shipped:" + p["verdict"])
@@ -407,8 +421,7 @@ def run(ctx, V):
         accepted = st["exit"] == 0 and st["sig"] == 0
         # monitor 1: the real parser loads the file, all patterns compile
         if not accepted:
-            V.violation("loads", p["rel"], dict(file=p["rel"], exit=st["exit"], sig=st["sig"], stderr=st["err"][:300]),
-                        "the real parser refuses shipped file %s: exit=%d sig=%d %s" % (p["rel"], st["exit"], st["sig"], st["err"][:200].strip()))
+            refused.append(dict(file=p["rel"], exit=st["exit"], sig=st["sig"], stderr=st["err"][:300]))
             if p["verdict"] == "accept":
                 V.tie_broken("correspondence", "R-SPEC", "%s: independent reader accepts, real parser refuses (%s)" % (p["rel"], st["err"][:200]), case=p["rel"])
             continue
@@ -431,6 +444,11 @@ def run(ctx, V):
                 tot["patterns"] += sum(1 for l in p["real_dump"] if len(l.split()) > 1 and l.split()[1] in ("EXPECT", "INTERP"))
         # R-CTX + monitor 3: what hsprintf really received
         check_ctx(ctx, V, p, tot)
+    flush_rule_violations(V)
+    if refused:
+        r0 = refused[0]
+        V.violation("loads", r0["file"] if len(refused) == 1 else "parser", dict(file=r0["file"], exit=r0["exit"], sig=r0["sig"], stderr=r0["stderr"], all_refused=[r["file"] for r in refused]),
+                    "the real parser refuses %d shipped file(s), first %s: exit=%d sig=%d %s" % (len(refused), r0["file"], r0["exit"], r0["sig"], r0["stderr"][:200].strip()))
     V.extra["shipped"] = tot
     V.sample("shipped: %d files, %d specifications, %d scripts, %d statements, %d patterns compiled by glibc; %d hsprintf calls of %d actions observed, covering %d of %d send statements" % (
         tot["files"], tot["specs"], tot["scripts"], tot["stmts"], tot["patterns"], tot["hsprintf_calls"], tot["actions"], tot["sends_observed"], tot["sends"]))
@@ -560,7 +578,10 @@ def replay(ctx, V, path):
     case = rec.get("case") or {}
     ctx.copy_repo()
     ctx.copy_coq()
-    ctx.regen()
+    try:
+        ctx.regen()
+    except vlib.TieBroken as ex:
+        print("note: a translator fails on the current tree (%s); continuing with the last generated constants" % str(ex)[:200])
     ok, log, failing = ctx.coq_make(["Extract/ExSpec.vo"])
     NUM = devparse.read_numbers(ctx.repo)
     impl, model = build(ctx)
